@@ -10,6 +10,7 @@ pub mod tape;
 pub mod lit;
 pub mod gen;
 pub mod textmut;
+pub mod canon;
 pub mod props;
 
 use engine::Tier;
